@@ -2,11 +2,12 @@ import PymtlVerif.Proofs.SV
 import PymtlVerif.Proofs.SVStmt
 import PymtlVerif.Proofs.SVLoop
 import PymtlVerif.Proofs.SVMod
+import PymtlVerif.Proofs.SVSigned
 /-!
 # C03 — translated SystemVerilog behaves exactly like the PyMTL simulation
 
-Models: `Model/SV.lean` (two-state IEEE 1800-2017 semantics of the emitted subset, both readings `cb` of
-the size cast), `Model/SVMod.lean` (modules, elaboration, single-driver check, simulation loop),
+Models: `Model/SV.lean` (two-state IEEE 1800-2017 semantics of the emitted subset: context widths §11.6, signed and
+unsigned expression types §11.8, both readings `cb` of the size cast), `Model/SVMod.lean` (modules, elaboration, single-driver check, simulation loop),
 `Model/VTr.lean` (typed RTLIR `RExpr`/`RStmt`, PyMTL semantics `evalPy`/`execPy`, translator `tr`/`trStmt`).
 Proofs: `Proofs/SV.lean`, `Proofs/SVStmt.lean`, `Proofs/SVLoop.lean`, `Proofs/SVMod.lean`.
 
@@ -14,6 +15,12 @@ Proofs: `Proofs/SV.lean`, `Proofs/SVStmt.lean`, `Proofs/SVLoop.lean`, `Proofs/SV
 the max-width operators, literals sized to the context, indices typed, right-hand side as wide as the target);
 it is a hypothesis here (C10 relates the type checker to it).  `C` lists the `localparam` variables with
 their values, `HoldsC σ C` says the store holds them.
+
+`signSafe be e` (`Model/VTr.lean`): no `< <= > >=` / `%` node of `e` has two operands whose EMITTED forms are both
+signed.  The SystemVerilog backend emits nothing signed (`int unsigned` loop variables, `logic` signals, sized
+literals): `signSafe_sv` proves the hypothesis for every expression, so for this backend the theorems below hold
+for every well-typed input exactly as before signedness was modelled.  For the Yosys backend (`integer` loop
+variables) it is a genuine restriction: Props/C12.lean.
 
 Coverage of `expr_correct` (all 22 `RExpr` constructors occur in `WTm`): numbers, BitsN(const), BitsN(e) (equal
 width; narrower context-free operand for Verilog; zero-extension form for Yosys), signals, constants and closure
@@ -33,38 +40,62 @@ open PV.SV PV.VTr PV.SVProofs PV.Sched
     same value, its self-determined width is the node's width, and the value fits; for both backends and both
     readings of the size cast. -/
 theorem expr_correct (be : Backend) (cb : Bool) (Γ : Env) (C : List (String × Nat)) (σ : Store)
-    (hC : HoldsC σ C) {e : RExpr} (hwt : WT be Γ C e) {v : Nat} (hv : evalPy be Γ σ e = some v) :
+    (hC : HoldsC σ C) {e : RExpr} (hwt : WT be Γ C e) (hs : signSafe be e = true) {v : Nat}
+    (hv : evalPy be Γ σ e = some v) :
     eval cb Γ σ e.width (tr be e) = v ∧ selfWidth Γ (tr be e) = e.width ∧ v < 2 ^ e.width :=
-  SVProofs.expr_correct be cb Γ C σ hC hwt hv
+  SVProofs.expr_correct be cb Γ C σ hC hwt hs hv
+
+/-- the side condition is free for the SystemVerilog backend: none of its expressions is signed … -/
+theorem sv_unsigned (e : RExpr) : signedOf (tr .verilog e) = false := SVProofs.signedOf_tr_verilog e
+
+/-- … so every expression and every statement is `signSafe` -/
+theorem signSafe_sv (e : RExpr) : signSafe .verilog e = true := SVProofs.signSafe_verilog e
+theorem signSafeS_sv (s : RStmt) : signSafeS .verilog s = true := SVProofs.signSafeS_verilog s
+
+/-- **Expressions, SystemVerilog backend**: no side condition -/
+theorem expr_correct_sv (cb : Bool) (Γ : Env) (C : List (String × Nat)) (σ : Store)
+    (hC : HoldsC σ C) {e : RExpr} (hwt : WT .verilog Γ C e) {v : Nat} (hv : evalPy .verilog Γ σ e = some v) :
+    eval cb Γ σ e.width (tr .verilog e) = v ∧ selfWidth Γ (tr .verilog e) = e.width ∧ v < 2 ^ e.width :=
+  SVProofs.expr_correct .verilog cb Γ C σ hC hwt (SVProofs.signSafe_verilog e) hv
 
 /-- **Signal references** (assignment targets, select chains): the storage PyMTL addresses is the storage the
     translated select chain addresses, in range, with the same type. -/
 theorem ref_correct (be : Backend) (cb : Bool) (Γ : Env) (C : List (String × Nat)) (σ : Store)
-    (hC : HoldsC σ C) {e : RExpr} (hwt : WTref be Γ C e) {l : Loc} (hr : refPy be Γ σ e = some l) :
+    (hC : HoldsC σ C) {e : RExpr} (hwt : WTref be Γ C e) (hs : signSafe be e = true) {l : Loc}
+    (hr : refPy be Γ σ e = some l) :
     loc cb Γ σ (tr be e) = some l ∧ l.ok = true ∧ typeOf Γ (tr be e) = some ⟨l.ty, l.dims⟩ :=
-  SVProofs.ref_correct be cb Γ C σ hC hwt hr
+  SVProofs.ref_correct be cb Γ C σ hC hwt hs hr
 
 /-- the value an assignment stores: right-hand side evaluated at `max (lhs width) (self width)` and truncated -/
 theorem rhs_correct (be : Backend) (cb : Bool) (Γ : Env) (C : List (String × Nat)) (σ : Store)
-    (hC : HoldsC σ C) {e : RExpr} (hwt : WT be Γ C e) {v : Nat} (hv : evalPy be Γ σ e = some v) :
+    (hC : HoldsC σ C) {e : RExpr} (hwt : WT be Γ C e) (hs : signSafe be e = true) {v : Nat}
+    (hv : evalPy be Γ σ e = some v) :
     evalRhs cb Γ σ e.width (tr be e) = v :=
-  SVProofs.evalRhs_correct be cb Γ C σ hC hwt hv
+  SVProofs.evalRhs_correct be cb Γ C σ hC hwt hs hv
 
 /-- **Statements** (assignment `@=` → blocking: the store is updated at once; `<<=` → non-blocking: appended to
     the pending updates; if/else; sequences): executing the translated statement yields exactly the PyMTL
     result — same store, same pending updates. -/
 theorem stmt_correct (be : Backend) (cb : Bool) (Γ : Env) (C : List (String × Nat)) {s : RStmt}
-    (hwt : WTs be Γ C s) {xs xs' : XS} (h : execPy be Γ s xs = some xs') (hC : HoldsC xs.σ C) :
+    (hwt : WTs be Γ C s) (hs : signSafeS be s = true) {xs xs' : XS} (h : execPy be Γ s xs = some xs')
+    (hC : HoldsC xs.σ C) :
     exec cb Γ (trStmt be s) xs = xs' ∧ HoldsC xs'.σ C :=
-  SVProofs.stmt_correct be cb Γ C hwt h hC
+  SVProofs.stmt_correct be cb Γ C hwt hs h hC
 
 /-- **Statements with constant `for` loops** (Verilog backend, ascending ranges, nested and sequential loops):
     simulation up to the cell of an out-of-scope loop variable (`AgreeX`: equal on every declared variable, equal
     pending updates, no loop runs out of fuel). -/
 theorem stmt_sim (be : Backend) (cb : Bool) (C : List (String × Nat)) {Γ : Env} {s : RStmt}
-    (hwt : WTsL be C Γ s) {p p' q : XS} (h : execPy be Γ s p = some p') (hC : HoldsC p.σ C)
+    (hwt : WTsL be C Γ s) (hs : signSafeS be s = true) {p p' q : XS} (h : execPy be Γ s p = some p')
+    (hC : HoldsC p.σ C)
     (ha : AgreeX Γ p q) : AgreeX Γ p' (exec cb Γ (trStmt be s) q) ∧ HoldsC p'.σ C :=
-  SVProofs.stmt_sim be cb C hwt h hC ha
+  SVProofs.stmt_sim be cb C hwt hs h hC ha
+
+/-- **Statements with loops, SystemVerilog backend**: no side condition -/
+theorem stmt_sim_sv (cb : Bool) (C : List (String × Nat)) {Γ : Env} {s : RStmt}
+    (hwt : WTsL .verilog C Γ s) {p p' q : XS} (h : execPy .verilog Γ s p = some p') (hC : HoldsC p.σ C)
+    (ha : AgreeX Γ p q) : AgreeX Γ p' (exec cb Γ (trStmt .verilog s) q) ∧ HoldsC p'.σ C :=
+  SVProofs.stmt_sim .verilog cb C hwt (SVProofs.signSafeS_verilog s) h hC ha
 
 /-- the emitted `for ( int unsigned x = start; x < stop; x += step )` enumerates `range(start, stop, step)` -/
 theorem for_unrolls (cb : Bool) (Γ : Env) (blk x : String) (start stop step sw ew pw : Nat) (body : RStmt)
@@ -138,5 +169,10 @@ example (be : Backend) (Γ : Env) (h1 : Γ "a" = some ⟨.vec 8, []⟩) (h2 : Γ
 
 /-- a loop statement in the fragment of `stmt_sim` -/
 example : WTsL .verilog [] SVProofs.exΓ SVProofs.exS := SVProofs.exS_wt
+
+/-- `i < j` for two loop variables: the SystemVerilog text (`int unsigned`) has PyMTL's value 1 at i=1, j=5
+    (an instance of `expr_correct_sv`; the Yosys text has 0: `PV.C12.signed_loopvar_counterexample`) -/
+example (cb : Bool) : eval cb SVProofs.sgΓ (SVProofs.sgσ 1 5) SVProofs.exLt.width (tr .verilog SVProofs.exLt) = 1 :=
+  (expr_correct_sv cb _ [] _ (SVProofs.sg_holdsC 1 5) (SVProofs.exLt_wt .verilog) (SVProofs.exLt_py .verilog)).1
 
 end PV.C03
